@@ -5,6 +5,8 @@ CONSTANTS
   MaxRot = 2
   Dedup = FALSE
   Recheck = TRUE
+  UseTree = TRUE
+  TreeAtomic = TRUE
   ReaderFallback = TRUE
-INVARIANTS NoDup NoLoss NoInvent NoDamage NeverInNeither TypeOK
+INVARIANTS NoDup NoLoss NoInvent NoDamage NoPartialTree NeverInNeither TypeOK
 CHECK_DEADLOCK FALSE
